@@ -34,6 +34,10 @@ from . import lines_common as lc
 from .core import MachineryError
 
 FR = ["«1»", "«2»", "«3»"]
+PYMOD = "mv_c12_pymod"
+# how paths are spelled: construction | template filename / lookup directory | module_directory
+SPELLINGS = ["direct|abs|abs/", "direct|abs|rel", "direct|rel|rel", "direct|rel|./rel", "direct|rel|dotdot", "direct|rel|none",
+             "lookup|abs|rel", "lookup|rel|rel/", "lookup|rel|none", "lookup|rel|dotdot", "lookup|abs|dotdot"]
 SUSPICIOUS = [("ff", "\x0c"), ("vt", "\x0b"), ("nel", "\x85"), ("ls", "\u2028"), ("ps", "\u2029"), ("fs", "\x1c"),
               ("lone-cr", "\r"), ("nbsp", "\xa0"), ("non-bmp", "\U0001f600")]
 
@@ -177,6 +181,22 @@ def build_catalog(rng):
     E.append(_rt("w.block", "<%\n" + "\n" * B + "   a = 1\n" * P + "   y = " + F + W + "\n%>", "warn", exact=True, site="literal"))
     E.append(_rt("w.modblock", "<%!\n" + "\n" * B + "   y = " + F + W + "\n%>", "warn", exact=True, site="literal"))
     E.append(_rt("w.modexec", "<%!\n   import warnings\n" + "\n" * B + "   " + F + "warnings.warn('modlevel')\n%>", "warn", exact=True, site="modexec"))
+    # ---- every style of line break (lc.BRK) inside the Python-bearing constructs: after the opening delimiter,
+    # between statements / operands, before the closer
+    K = lc.BRK
+    for style, t in lc.break_variants("<%" + K + "   a = 1" + K + "   z = " + F + Z + K + "   b = 2\n%>"):
+        E.append(_rt("rt.block.brk-" + style, t, "raise-brk", exact=True))
+    for style, t in lc.break_variants("${" + K + " (1 +" + K + " " + F + Z + ")" + K + "}"):
+        E.append(_rt("rt.expr.brk-" + style, t, "raise-brk"))
+    for style, t in lc.break_variants('<%call expr="' + K + "str(1," + K + "  " + F + Z + ')">c' + K + "</%call>"):
+        E.append(_rt("rt.calltag.brk-" + style, t, "raise-brk"))
+    for style, t in lc.break_variants("<%" + K + "   a = 1" + K + "   y = " + F + W + K + "%>"):
+        E.append(_rt("w.block.brk-" + style, t, "warn-brk", exact=True, site="literal"))
+    for style, t in lc.break_variants("${" + K + " (1," + K + " " + F + W + ")" + K + "}"):
+        E.append(_rt("w.expr.brk-" + style, t, "warn-brk", site="literal"))
+    # ---- a raise inside an ordinary Python module reached through <%namespace module=>: its frame is reported unchanged
+    E.append(_rt("rt.nsmodule", '<%namespace name="pm@" module="' + PYMOD + '"/>\nx ' + N + F + "${pm@.boom()}", "raise", notoken=True,
+                 pyframe=(PYMOD + ".py", 2, "boom")))
     # ---- filler whose EARLIER lines hold characters that other notions of "line" break on (str.splitlines, editors):
     # Mako counts lines by "\n" only, so none of them may shift what is displayed for a later line
     for name, ch in SUSPICIOUS:
@@ -219,14 +239,14 @@ def compose(E, seq, nl, nxt=None, extra=""):
     return t.replace("\n", nl)
 
 
-def build_world(work, path, templates):
+def build_world(work, path, templates, **lkw):
     """templates: {uri: text}; returns (lookup, {uri: expected filename}, top-level getter)"""
     from mako.lookup import TemplateLookup
     shutil.rmtree(work, ignore_errors=True)
     os.makedirs(work)
     names = {}
     if path == "lookup-strings":
-        lk = TemplateLookup()
+        lk = TemplateLookup(**lkw)
         for u, t in templates.items():
             try:
                 lk.put_string(u, t)       # compiles eagerly; a failure is re-raised when the render is observed
@@ -238,16 +258,65 @@ def build_world(work, path, templates):
     os.makedirs(d)
     for u, t in templates.items():
         fn = os.path.join(d, u.lstrip("/"))
+        os.makedirs(os.path.dirname(fn), exist_ok=True)
         with open(fn, "wb") as f:
             f.write(t.encode("utf-8"))
         names[u] = fn
-    kw = {}
+    kw = dict(lkw)
     if path == "moddir":
         kw["module_directory"] = os.path.join(work, "mods")
     return TemplateLookup(directories=[d], **kw), names
 
 
-def render_and_observe(get, stubs, want_templates=False):
+class _cwd:
+    """The harness is single-threaded: the working directory is changed for one construction + render only."""
+
+    def __init__(self, d):
+        self.d = d
+
+    def __enter__(self):
+        self.old = os.getcwd()
+        os.chdir(self.d)
+
+    def __exit__(self, *a):
+        os.chdir(self.old)
+
+
+def spelled_world(root, route, text):
+    """A template under root/tpl built with the path spellings of `route` (to be used with cwd = root).
+    Returns (constructor, absolute template filename)."""
+    from mako.lookup import TemplateLookup
+    from mako.template import Template
+    shutil.rmtree(root, ignore_errors=True)
+    os.makedirs(os.path.join(root, "tpl"))
+    with open(os.path.join(root, "tpl", "t.html"), "wb") as f:
+        f.write(text.encode("utf-8"))
+    kind, fsp, msp = route.split("|")
+    mod = {"abs/": os.path.join(root, "mods") + "/", "rel": "mods", "rel/": "mods/", "./rel": "./mods", "dotdot": "tpl/../mods", "none": None}[msp]
+    kw = {"module_directory": mod} if mod else {}
+    if kind == "direct":
+        fname = os.path.join(root, "tpl", "t.html") if fsp == "abs" else "tpl/t.html"
+        return (lambda: Template(filename=fname, **kw)), os.path.join(root, "tpl", "t.html")
+    d = os.path.join(root, "tpl") if fsp == "abs" else "tpl"
+    return (lambda: TemplateLookup(directories=[d], **kw).get_template("/t.html")), os.path.join(root, "tpl", "t.html")
+
+
+def _project(o, rt, stubs):
+    fr, py = [], []
+    other_ok = True
+    for r in rt.records:
+        if r[4] is None:
+            other_ok = other_ok and r[5] is None and r[6] is None
+            py.append((os.path.basename(r[0]), r[1], r[2]))
+            continue
+        if r[2] in stubs:
+            continue
+        fr.append({"file": r[4], "file_abs": os.path.abspath(r[4]) if not str(r[4]).startswith("memory:") else r[4],
+                   "line": r[5], "fn": r[2], "text": r[6], "src": r[7]})
+    o.update(res="exc", frames=fr, python_frames=py, python_frames_unchanged=other_ok, lineno=rt.lineno, source=rt.source)
+
+
+def render_and_observe(get, stubs, want_templates=False, plain_too=True):
     """Render; return the observation: list of template-owned frames etc.  Never raises."""
     from mako import exceptions
     o = {}
@@ -260,20 +329,20 @@ def render_and_observe(get, stubs, want_templates=False):
             o["res"] = "noexc"
         except ZeroDivisionError:
             rt = exceptions.RichTraceback()
-            fr = []
-            other_ok = True
-            for r in rt.records:
-                if r[4] is None:
-                    other_ok = other_ok and r[5] is None and r[6] is None
-                    continue
-                if r[2] in stubs:
-                    continue
-                fr.append({"file": r[4], "line": r[5], "fn": r[2], "text": r[6], "src": r[7]})
-            o.update(res="exc", frames=fr, python_frames_unchanged=other_ok, lineno=rt.lineno, source=rt.source)
+            _project(o, rt, stubs)
             if want_templates:
                 try:
                     o["text_tmpl"] = exceptions.text_error_template().render_unicode()
                     o["html_tmpl"] = exceptions.html_error_template().render_unicode(full=False, css=False)
+                    try:        # the same page without the pygments formatter
+                        if not plain_too:
+                            raise KeyError
+                        exceptions._install_fallback()
+                        o["html_tmpl_plain"] = exceptions.html_error_template().render_unicode(full=False, css=False)
+                    except KeyError:
+                        pass
+                    finally:
+                        exceptions._install_highlighting()
                 except Exception as e2:  # noqa
                     o["tmpl_exc"] = type(e2).__name__
         except _Timeout:
@@ -318,7 +387,7 @@ def compare_frames(exp, o, texts):
         tag = "f%d" % (n + 1) if n + 1 < len(exp) else "inner"
         if f["line"] != line:
             return (tag, "line-early" if f["line"] < line else "line-late")
-        if fname is not None and f["file"] != fname:
+        if fname is not None and f["file"] != fname and f.get("file_abs") != fname:
             return (tag, "filename")
         if fname is None and not str(f["file"]).startswith("memory:"):
             return (tag, "filename")
@@ -335,6 +404,7 @@ def compare_frames(exp, o, texts):
         return ("error-template", "raises:" + o["tmpl_exc"])
     if "text_tmpl" in o:
         tf, hf = text_frames(o["text_tmpl"]), html_frames(o["html_tmpl"])
+        hp = html_frames(o["html_tmpl_plain"]) if "html_tmpl_plain" in o else None
         for (fname, uri, line), f in zip(exp, fr):
             want = (lc.physical_line(texts[uri], line) or "").strip()
             hit = [x for x in tf if x[0] == str(f["file"]) and x[1] == line and x[2] == f["fn"]]
@@ -347,6 +417,12 @@ def compare_frames(exp, o, texts):
                 return ("html-error-template", "frame-missing")
             if all(x[2] != want for x in hit):
                 return ("html-error-template", "source-line")
+            if hp is not None:
+                hit = [x for x in hp if x[0] == str(f["file"]) and x[1] == line]
+                if not hit:
+                    return ("html-error-template-plain", "frame-missing")
+                if all(x[2] != want for x in hit):
+                    return ("html-error-template-plain", "source-line")
     return None
 
 
@@ -405,7 +481,7 @@ def check(run):
         n0 = len(seen)
         for c in res.json_lines():
             if isinstance(c, dict) and "seq" in c and "frames" in c:
-                key = (tuple(c["seq"]), c["nl"])
+                key = (tuple(c["seq"]), c["nl"], c.get("route", "string"))
                 if key not in seen:
                     seen.add(key)
                     c["group"] = group
@@ -439,6 +515,23 @@ def check(run):
     if res.violated:
         run.spec_violation(res)
     n_sus = take(res, "sus")
+    few = [i + 1 for i, e in enumerate(E) if e["id"] in ("txtml", "cont", "block", "ctlcont")]
+    res = run.tlc("MC_Lines", cfg_lines(few[:2], c11.idx(E, "raise-brk") + c11.idx(E, "warn-brk"), [], 1, ["lf", "crlf"], inv),
+                  name="mc-break-styles", workers=workers, extra_files=files)
+    if res.violated:
+        run.spec_violation(res)
+    n_sus += take(res, "brk")
+    # how paths are spelled (module_directory / template filename / lookup directories: absolute, relative to the cwd,
+    # trailing slash, ./ and dir/../dir segments) is a dimension of the construction-path matrix
+    wrep = [i + 1 for i, e in enumerate(E) if e["id"] in ("w.expr", "w.block", "w.modexec", "w.ctl.for-loop")]
+    rep = [i for i in rep if E[i - 1]["id"] != "rt.namedblock"]     # (its caller frame is known finding #7 on every route)
+    res = run.tlc("MC_Lines", c11.cfg(few[:1], rep + wrep, [], 1, ["lf"], inv, routes=SPELLINGS), name="mc-path-spellings",
+                  workers=workers, extra_files=files)
+    if res.violated:
+        run.spec_violation(res)
+    n_spell = take(res, "spelled")
+    if n_spell < len(SPELLINGS) * (len(rep) + len(wrep)):
+        raise MachineryError("path-spelling instance exported only %d cases" % n_spell)
     # ------------------------------------------------------------------ 2. TLC: the printer's accounting (LineMap.tla)
     lm_inv = ["EveryEmittedLineMapsHome", "PlantedLineEmitted"]
     for hdr in ((17, 31) if thorough else (17,)):
@@ -481,9 +574,19 @@ def check(run):
     byid = {e["id"]: i + 1 for i, e in enumerate(E)}
     work = run.subdir("world")
     cases.sort(key=lambda c: (c["seq"], c["nl"]))
-    leafs = [c for c in cases if E[c["seq"][c["fpos"] - 1] - 1]["group"] == "raise"]
+    spelled = [c for c in cases if c.get("route", "string") != "string"]
+    cases = [c for c in cases if c.get("route", "string") == "string"]
+    leafs = [c for c in cases if E[c["seq"][c["fpos"] - 1] - 1]["group"] in ("raise", "raise-brk")]
     hopc = [c for c in cases if E[c["seq"][c["fpos"] - 1] - 1]["group"] == "hop"]
-    warnc = [c for c in cases if E[c["seq"][c["fpos"] - 1] - 1]["group"] == "warn"]
+    warnc = [c for c in cases if E[c["seq"][c["fpos"] - 1] - 1]["group"] in ("warn", "warn-brk")]
+    # the ordinary Python module reached through <%namespace module=>
+    pydir = run.subdir("pymods")
+    with open(os.path.join(pydir, PYMOD + ".py"), "w") as f:
+        f.write("def boom(context):\n    return 1 / 0\n")
+    import sys
+    sys.modules.pop(PYMOD, None)
+    if pydir not in sys.path:
+        sys.path.insert(0, pydir)
     mism = {}
     n_render = n_pairs = n_warn = 0
 
@@ -510,9 +613,11 @@ def check(run):
         paths = ["plain"]
         key = (fe["id"], c["nl"])
         is_sus = any(E[i - 1]["group"] == "sus" for i in c["seq"])
-        if key not in seen_paths or hsh(ci) % stride == 0 or is_sus:
+        if key not in seen_paths or hsh(ci) % stride == 0:
             seen_paths.add(key)
             paths += ["lookup-strings", "file", "lookup", "moddir"]
+        elif is_sus:
+            paths += [["file", "moddir", "lookup", "lookup-strings"][hsh(ci, "sus") % 4]]
         for p in paths:
             from mako.template import Template
             tl = [None]
@@ -534,16 +639,21 @@ def check(run):
                             raise names["!fail"]
                         tl[0] = lk.get_template("/t.html")
                         return tl[0]
-            o = render_and_observe(get, stubs_of(c), want_templates=(p in ("plain", "file") and (is_sus or hsh(ci, p) % 3 == 0)))
+            o = render_and_observe(get, stubs_of(c), want_templates=((p == "plain" and (is_sus or hsh(ci, p) % 6 == 0)) or (p != "plain" and hsh(ci, p) % 3 == 0)),
+                                   plain_too=(hsh(ci, p) % 2 == 0))
             n_render += 1
             exp = [(fname, "/t.html", l) for l in c["frames"]]
             d = compare_frames(exp, o, {"/t.html": text})
             if d:
                 note("frame:%s:%s:%s" % (fe["id"], d[0], d[1]), "frames %s" % ([(f["fn"], f["line"]) for f in o.get("frames", [])] if o["res"] == "exc" else o["res"]),
-                     {"template": text, "path": p, "expected_frame_lines": c["frames"], "observed": {k: v for k, v in o.items() if k not in ("text_tmpl", "html_tmpl", "source")},
+                     {"template": text, "path": p, "expected_frame_lines": c["frames"], "observed": {k: v for k, v in o.items() if k not in ("text_tmpl", "html_tmpl", "html_tmpl_plain", "source")},
                       "layout": [E[i - 1]["id"] for i in c["seq"]], "nl": c["nl"]})
+            # the frame of an ordinary Python module (namespace module=) is reported unchanged: its own file, line, function
+            if fe.get("pyframe") and o["res"] == "exc" and (not o["python_frames"] or tuple(o["python_frames"][-1]) != tuple(fe["pyframe"])):
+                note("frame:%s:python-frame" % fe["id"], "innermost Python frame %s, expected %s" % (o["python_frames"][-1:], fe["pyframe"]),
+                     {"template": text, "path": p, "python_frames": o["python_frames"][-3:]})
             # V: the module line holding the planted token maps to the innermost expected line
-            if tl[0] is not None and p in ("plain", "moddir"):
+            if tl[0] is not None and p in ("plain", "moddir") and not fe.get("notoken"):
                 try:
                     pairs = token_pairs(tl[0], token)
                 except Exception as e:  # noqa
@@ -552,6 +662,23 @@ def check(run):
                 if isinstance(pairs, str) or not pairs or any(v != c["frames"][-1] for _, v in pairs):
                     note("linemap:%s:token-line" % fe["id"], "module lines holding %s map to %s, home is %s" % (token, pairs, c["frames"][-1]),
                          {"template": text, "path": p, "pairs": pairs, "home": c["frames"][-1]})
+        if hsh(ci, "eh") % 9 == 0 or is_sus:      # what an error_handler sees
+            from mako import exceptions as _ex
+            seen_eh = {}
+
+            def handler(context, error):
+                _project(seen_eh, _ex.RichTraceback(), stubs_of(c))
+                return True
+            try:
+                Template(text, error_handler=handler).render(v=1)
+            except Exception as e:  # noqa
+                seen_eh["res"] = "raw:" + type(e).__name__
+            seen_eh.setdefault("res", "noexc")
+            n_render += 1
+            d = compare_frames([(None, "/t.html", l) for l in c["frames"]], seen_eh, {"/t.html": text})
+            if d:
+                note("frame:%s:%s:%s" % (fe["id"], d[0], d[1]), "RichTraceback inside an error_handler: %s" % (
+                    [(f["fn"], f["line"]) for f in seen_eh.get("frames", [])] if seen_eh["res"] == "exc" else seen_eh["res"]), {"template": text})
         if ci < 3:
             run.sample({"layout": [E[i - 1]["id"] for i in c["seq"]], "nl": c["nl"], "template": text, "expected_frame_lines": c["frames"]})
     # ---- format_exceptions output
@@ -585,7 +712,7 @@ def check(run):
         depth = rng.choice([1, 1, 2])
         chain = [rng.choice(hopc) for _ in range(depth)] + [rng.choice(leafs)]
         kinds = [fe_of(c)["hop"] for c in chain[:-1]]
-        uris = ["/c%d.html" % i for i in range(len(chain))]
+        uris = ["/d%d/t.html" % i for i in range(len(chain))]      # the same basename in different directories
         texts = {}
         # an "inherit" hop template is the PARENT of the next one: the next template gets the inherit tag appended
         for i, c in enumerate(chain):
@@ -636,6 +763,26 @@ def check(run):
                 note("frame:%s:%s:%s" % (bad, d[0], d[1]), "chain %s" % ids,
                      {"templates": texts, "path": p, "expected": [(u, l) for _, u, l in exp],
                       "observed": [(f["file"], f["fn"], f["line"]) for f in o.get("frames", [])] if o["res"] == "exc" else o["res"]})
+        if k % 4 == 0 and not d:       # the same chain through a lookup with format_exceptions=True: the error page
+            lk2, names2 = build_world(work, p, texts, format_exceptions=True)
+            try:
+                if "!fail" in names2:
+                    raise names2["!fail"]
+                page = lk2.get_template(uris[start]).render(v=1)
+                page = page.decode("utf-8", "replace") if isinstance(page, bytes) else page
+                hf = html_frames(page)
+                bad = None
+                for (fname, uri, line) in exp:
+                    want = (lc.physical_line(texts[uri], line) or "").strip()
+                    if not any(x[0] == str(names2[uri]) and x[1] == line and x[2] == want for x in hf):
+                        bad = (uri, line, want)
+                        break
+            except Exception as e:  # noqa
+                bad = "raw:" + type(e).__name__
+            n_render += 1
+            if bad:
+                note("format-exceptions-lookup:%s" % fe_of(chain[-1])["id"], "error page of a lookup with format_exceptions lacks %s" % (bad,),
+                     {"templates": texts, "path": p, "missing": bad})
         if k < 2:
             run.sample({"chain": [fe_of(c)["id"] for c in chain], "templates": texts, "expected": [(u, l) for _, u, l in exp]})
     # ---- the LineMap counterexample of the model "as coded", confirmed on the real code
@@ -644,6 +791,38 @@ def check(run):
         seq = as_coded_ce
         text = compose(E, seq, "\n")
         run.extra["linemap_counterexample"] = {"layout": [E[i - 1]["id"] for i in seq], "template": text}
+    # ---- path spellings (cwd = the world's root for construction, render and display)
+    for ci, c in enumerate(spelled):
+        fe = fe_of(c)
+        text = compose(E, c["seq"], "\n")
+        root = os.path.join(work, "spell")
+        make, fabs = spelled_world(root, c["route"], text)
+        sig_route = "module-directory-%s" % c["route"].split("|")[2] if c["route"].split("|")[2] not in ("none",) else "filename-%s" % c["route"].split("|")[1]
+        if fe["group"] == "raise":
+            with _cwd(root):
+                o = render_and_observe(make, stubs_of(c), want_templates=(hsh(ci, "sp") % 3 == 0))
+            n_render += 1
+            d = compare_frames([(fabs, "/t.html", l) for l in c["frames"]], o, {"/t.html": text})
+            if d:
+                note("frame:%s:%s:%s:%s" % (fe["id"], d[0], d[1], sig_route), "route %s: frames %s, python frames %s" % (
+                    c["route"], [(f["file"], f["line"]) for f in o.get("frames", [])] if o["res"] == "exc" else o["res"], o.get("python_frames", [])[-2:]),
+                    {"template": text, "route": c["route"], "expected_frame_lines": c["frames"]})
+        else:
+            home = c["frames"][-1]
+            for action in ("always", "once", "error"):
+                ex = wexp[(fe["f"]["site"], action)]
+                make, fabs = spelled_world(root, c["route"], text)
+                with _cwd(root):
+                    res, shown = observe_warnings(action, make)
+                    got_shown = [{"file": os.path.abspath(x["file"]), "line": x["line"]} for x in shown]
+                n_warn += 1
+                want_shown = [{"file": fabs, "line": home} for _ in ex["shown"]]
+                want_res = {"none": "ok", "SyntaxException@home": "SyntaxException@%d" % c["fline"], "warning-itself": "warning-itself"}[ex["exc"]]
+                if res != want_res or got_shown != want_shown:
+                    clause = ("result:" + re.sub(r"\d+", "N", res)) if res != want_res else ("shown-%d-times" % len(got_shown) if len(got_shown) != len(want_shown)
+                                                                                           else ("filename" if got_shown[0]["file"] != fabs else "line"))
+                    note("warning:%s:%s:%s:%s" % (fe["id"], action, clause, sig_route), "route %s: result %s shown %s; expected %s %s" % (c["route"], res, shown, want_res, want_shown),
+                         {"template": text, "route": c["route"], "action": action})
     # ---- warnings
     wstride = 5 if thorough else 17
     for ci, c in enumerate(warnc):
@@ -730,6 +909,11 @@ def check(run):
         "hoisted variable declarations and the __M_locals bookkeeping lines are not planted positions",
         "filler lines holding \\x0c \\x0b \\x85 U+2028 U+2029 \\x1c lone-CR NBSP and a non-BMP character precede 7 representative raises on every run; the "
         "displayed source text of every template frame is compared on all surfaces (records, text/html templates, format_exceptions)",
+        "path spellings: module_directory absolute+slash / relative / relative+slash / ./ / dir/../dir x template filename or lookup directory "
+        "absolute / relative, run with cwd = the world's root, for 7 representative raises and 4 warning entries (frames, error templates, warnings)",
+        "also: RichTraceback inside an error_handler, format_exceptions through a lookup, html page with and without pygments (only file, line "
+        "and displayed text are read, no pygments markup), chain templates share one basename in different directories, a Python frame behind "
+        "<%namespace module=> is reported unchanged",
         "a plain string template without uri has no filename: the module id (memory:0x..) is accepted as its name",
         "warnings: PYTHONDONTWRITEBYTECODE=1, so a module file is compiled (and warns) once per construction; string templates are given a uri",
         "the line shown for a warning / frame is the line where the construct begins, the exact line inside <% %> and <%! %>; "
